@@ -231,6 +231,10 @@ def check_property(prop: str, tier: str) -> int:
                 )
                 continue
             clause = rp["clause"]
+            if clause.startswith("harness-error:"):
+                harness_errors.append("%s: the harness itself failed (it no longer fits the code under test?): %s %s"
+                                      % (uname, clause, str(rp.get("detail"))[-400:]))
+                continue
             k = match_known(known, prop, r["harness"], clause, cex["inputs"], r["params"] or {})
             rec = {
                 "property": prop,
